@@ -844,6 +844,7 @@ func Check(run *report.Run, nReads int) error {
 	run.Extra["histories"] = histories
 	run.Extra["reads_alone_on_fresh_provider"] = reads
 	run.Extra["xml_characters_replaced_by_generator"] = ExcludedForXML
+	run.Extra["strings_that_look_like_escape_syntax"] = EscapeLikeStrings
 	run.Extra["proposed_findings"] = map[string]string{
 		FindingAmbiguousCT: "class Entity.f62: two registered keys with different readers are substrings of the Content-Type — the reader depends on Go map iteration order",
 	}
